@@ -1,6 +1,7 @@
 import MJ.Model.Eval
 import MJ.Model.Compile
 import MJ.Model.Vm
+import MJ.Proofs.StmtSim
 /-!
 Line driver for C03 (reference interpreter).
 
@@ -324,7 +325,9 @@ def handle (line : String) : String :=
         | some code => match MJ.Vm.renderCode 1000000 ctx code with
           | .ok out => s!"ok:{hexOf out}"
           | .error e => s!"err:{errName e}"
-      s!"{id}\t{res}\t{codeStr prog}\t{vm}"
+      -- is the program in the fragment for which the refinement theorem is proved?
+      let frag := if MJ.Compile.simpleBlock prog then "frag3" else "-"
+      s!"{id}\t{res}\t{codeStr prog}\t{vm}\t{frag}"
     | none, _ => s!"{id}\tbad-case:ctx"
     | _, none => s!"{id}\tbad-case:prog"
   | _ => "?\tbad-case:fields"
